@@ -300,6 +300,9 @@ def _parse_output(text):
     return res, order
 
 
+OUTPUT_LIMIT = 768 << 20     # octets one harness / driver process may print
+
+
 def _crash_summary(stderr):
     m = re.search(r"ERROR: AddressSanitizer: ([\w-]+)", stderr)
     kind = m.group(1) if m else None
@@ -329,16 +332,30 @@ def run_program(binary, cases, timeout_per_case=20, env=None):
         e.update(env)
     while todo:
         inp = "".join(c.text() for c in todo)
-        try:
-            p = subprocess.run([binary], input=inp, stdout=subprocess.PIPE, stderr=subprocess.PIPE,
-                               text=True, env=e, timeout=120 + timeout_per_case * 2 + len(todo) * 0.05 + sum(len(c.ops) for c in todo) * 0.003,
-                               errors="replace")
-            out, err, rc = p.stdout, p.stderr, p.returncode
-        except subprocess.TimeoutExpired as te:
-            out = te.stdout or ""
-            if isinstance(out, bytes):
-                out = out.decode(errors="replace")
-            err, rc = "", -14
+        # output goes to files of bounded size: a loop that never ends while printing (an iterator whose step count
+        # was left uninitialised ...) is stopped by the file-size limit or the time-out, not by this process' memory
+        import resource
+        import tempfile
+
+        def _limits():
+            resource.setrlimit(resource.RLIMIT_FSIZE, (OUTPUT_LIMIT, OUTPUT_LIMIT))
+        with tempfile.TemporaryFile() as fo, tempfile.TemporaryFile() as fe:
+            p = subprocess.Popen([binary], stdin=subprocess.PIPE, stdout=fo, stderr=fe, env=e, preexec_fn=_limits)
+            try:
+                p.communicate(inp.encode(), timeout=120 + timeout_per_case * 2 + len(todo) * 0.05 + sum(len(c.ops) for c in todo) * 0.003)
+                rc = p.returncode
+            except subprocess.TimeoutExpired:
+                p.kill()
+                p.communicate()
+                rc = -14
+            fo.seek(0)
+            out = fo.read().decode(errors="replace")
+            fe.seek(0, 2)
+            fe.seek(max(0, fe.tell() - 200000))
+            err = fe.read().decode(errors="replace") if rc != -14 else ""
+            if rc == -25:
+                # SIGXFSZ: keep only complete lines of what was written
+                out = out[:out.rfind("\n") + 1]
         res, order = _parse_output(out)
         if rc == 0 and len(order) == len(todo):
             results.update(res)
@@ -364,7 +381,7 @@ def run_program(binary, cases, timeout_per_case=20, env=None):
         last = order[-1]
         for cid in order[:-1]:
             results[cid] = res[cid]
-        tag = "hang" if rc in (-14, -9) else _crash_summary(err)
+        tag = "hang" if rc in (-14, -9) else ("crash:output-limit" if rc == -25 else _crash_summary(err))
         results[last] = res[last] + [tag]
         idx = [c.cid for c in todo].index(last)
         todo = todo[idx + 1:]
